@@ -220,6 +220,22 @@ pub proof fn lemma_lookups_agree(p: PartsV, frames: Map<u128, FrameV>, i: u128)
     }
 }
 
+// L9 (import, C20): at the level of the three partitions the import batches of different frames commute and importing a frame twice
+// is importing it once - so the store a sequence of imports ends in does not depend on the order or on duplicates (under P2: an id
+// always comes with the same topic and context)
+pub proof fn lemma_import_order_and_duplicates(p: PartsV, i1: u128, f1: FrameV, i2: u128, f2: FrameV)
+    ensures
+        after_insert(after_insert(p, i1, f1), i2, f2) == after_insert(after_insert(p, i2, f2), i1, f1), //# lemma.L9.imports_commute
+        after_insert(after_insert(p, i1, f1), i1, f1) == after_insert(p, i1, f1), //# lemma.L9.import_twice_is_import_once
+{
+    let a = after_insert(after_insert(p, i1, f1), i2, f2);
+    let b = after_insert(after_insert(p, i2, f2), i1, f1);
+    assert(a.stream =~= b.stream); assert(a.idx_topic =~= b.idx_topic); assert(a.idx_ctx =~= b.idx_ctx);
+    let c = after_insert(after_insert(p, i1, f1), i1, f1);
+    let d = after_insert(p, i1, f1);
+    assert(c.stream =~= d.stream); assert(c.idx_topic =~= d.idx_topic); assert(c.idx_ctx =~= d.idx_ctx);
+}
+
 pub proof fn canary_must_fail(p: PartsV, frames: Map<u128, FrameV>, i: u128) //# canary.lockstep
     requires lockstep(p, frames)
     ensures frames.contains_key(i)
